@@ -26,6 +26,7 @@ LIBTEXT = {
     "v": ("V{{s|{{{k|}}}}}", False),
     "f": ("F{{u|{{{1|}}}}}", True),
     "e0": ("{{{1|}}}", False),     # expands to nothing when called without argument
+    "br": ("{{#if:1|[x] {{{1|}}}|}}", False),   # square brackets that are not a link, produced by a parser function
 }
 # the same bodies as ASTs for the reference
 LIBAST = {
@@ -35,9 +36,10 @@ LIBAST = {
     "v": ("SEQ", [("T", "V"), ("C", "s", [(None, ("P", "k", ("T", "")))])]),
     "f": ("SEQ", [("T", "F"), ("C", "u", [(None, ("P", "1", ("T", "")))])]),
     "e0": ("P", "1", ("T", "")),
+    "br": ("IF", ("T", "1"), ("SEQ", [("T", "[x] "), ("P", "1", ("T", ""))]), ("T", "")),
 }
 FLAGGED = {"s", "f"}
-SETS_EXPAND = [None, [], ["u"], ["w"], ["u", "w"], ["v"], ["e0", "u"]]
+SETS_EXPAND = [None, [], ["u"], ["w"], ["u", "w"], ["v"], ["e0", "u"], ["br", "u"]]
 SETS_NOT = [None, [], ["s", "f"], ["u"], ["s", "u", "f"], ["s"]]
 HOOKS = ["none", "ret_none", "mark_u", "mark_all"]
 
@@ -261,6 +263,9 @@ def pages(tier):
         ("SEQ", [("IF", ("T", "1"), ("C", "w", []), ("T", "")), ("T", " "), ("C", "w", [])]),
         ("SEQ", [("C", "v", []), ("T", " "), ("C", "u", [(None, ("C", "v", []))])]),
         ("SEQ", [("C", "f", []), ("C", "s", [(None, ("C", "f", []))]), ("C", "f", [])]),
+        # square brackets that are not a link: in the expansion a hook sees, in an argument value and in an argument name
+        ("C", "br", []), ("C", "br", [(None, ("T", "[y]"))]), ("C", "u", [(None, ("C", "br", []))]),
+        ("C", "u", [("[a]", ("T", "b"))]), ("SEQ", [("C", "br", []), ("T", " [z] "), ("C", "u", [(None, ("T", "[w]"))])]),
         ("IF", ("T", " x "), ("T", "y"), ("T", "n")),
         ("C", "u", [(None, ("IF", ("T", " 1"), ("C", "s", [(None, ("T", "q"))]), ("T", "")))]),
     ]
